@@ -228,6 +228,29 @@ def check_tree(c, item):
                 continue
             accepted_any = True
             c.count('accepted')
+            if style == 'min' and dclass in ('d0', 'd1'):
+                # the same text parsed again for a second index layout (the same names, species and parameters numbered in reverse):
+                # nothing the first parse left behind may be re-used for it
+                ns_, np_ = len(s2i), len(p2i)
+                s2r = {k_: ns_ - 1 - v_ for k_, v_ in s2i.items()}
+                p2r = {k_: np_ - 1 - v_ for k_, v_ in p2i.items()}
+                try:
+                    term_r = parse_expression(text, s2r, p2r)
+                except Exception:
+                    term_r = None
+                if term_r is not None:
+                    for (pi, pt, t, V), ref in zip(point_iter(), refs):
+                        if pi > 1:
+                            break
+                        _, _, st, pr = pts[pi]
+                        try:
+                            got = term_r.py_evaluate(st[::-1].copy(), pr[::-1].copy(), t) if V is None else term_r.py_volume_evaluate(st[::-1].copy(), pr[::-1].copy(), V, t)
+                        except Exception:
+                            got = None
+                        c.count('evaluations'); c.count('transitions')
+                        if compare(c, 'C02/value/%s/parse_expression-second-layout' % opkey(tr), tr, text, 'parse_expression for a second index layout', got, ref,
+                                   dict(cfg=cfg, point=pi, t=t, volume=V)):
+                            break
             for (pi, pt, t, V), ref in zip(point_iter(), refs):
                 _, _, st, pr = pts[pi]
                 try:
